@@ -73,6 +73,25 @@ pub fn gen_c08(rng: &mut Rng, thorough: bool, emit: &mut dyn FnMut(StreamCase)) 
             }
         }
     }
+    // chunk sizes beyond 64 KiB (the builder takes any size), fed with pieces that are not powers of two
+    for (cap, piece, total) in [(100_000usize, 30_000usize, 250_000usize), (65_537, 65_537, 200_000), (300_000, 70_001, 700_000), (100_000, 100_010, 100_020), (131_072, 50_000, 300_000)] {
+        for all in [true, false] {
+            let mut p = Payload(7);
+            let mut ops = vec![];
+            let mut left = total;
+            while left > 0 {
+                let k = piece.min(left);
+                let d = p.take(k as u64);
+                ops.push(if all { Op::WriteAll(d) } else { Op::Write(d) });
+                left -= k;
+            }
+            ops.push(Op::Flush);
+            ops.push(Op::DropWriter);
+            ops.push(Op::Drain(1));
+            ops.push(Op::Poll(1));
+            emit(base(cap, ops, format!("G:c08 large-chunk cap={} piece={} total={} write_all={}", cap, piece, total, all)));
+        }
+    }
     gen_random(rng, if thorough { 40000 } else { 3000 }, false, false, emit);
 }
 
@@ -299,7 +318,9 @@ pub fn gen_c17(rng: &mut Rng, thorough: bool, emit: &mut dyn FnMut(StreamCase)) 
     ];
     let payload: Vec<u8> = (0..300u32).map(|i| (i % 7) as u8 + b'a').collect();
     for ae in &aes {
-        for level in 0..=9u32 {
+        // 0..9 and 10: "above 0" has no upper end in the property; 10 is the highest level flate2's
+        // backend takes without tripping its own debug assertion
+        for level in 0..=10u32 {
             for cap in [1usize, 7, 4096] {
                 for method in ["GET", "HEAD", "POST"] {
                     for parts in [false, true] {
